@@ -4,20 +4,28 @@ from uberjob.progress import Progress, ProgressObserver
 from simkit.sched import current_sim
 
 
+class ObserverStartError(Exception):
+    """An observer that cannot start (e.g. its output file cannot be opened)."""
+
+
 class RecordingObserver(ProgressObserver):
-    def __init__(self, tag="obs", yield_in_callbacks=False):
+    def __init__(self, tag="obs", yield_in_callbacks=False, fail_enter=False):
         self.tag = tag
         self.records = []
         self.yield_in_callbacks = yield_in_callbacks
+        self.fail_enter = fail_enter
 
     def _rec(self, *ev):
         sim = current_sim()
         seq = sim.log("obs", self.tag, *ev) if sim is not None else len(self.records)
         self.records.append((seq,) + ev)
         if self.yield_in_callbacks and sim is not None and not sim.aborted:
-            sim.yield_("obs")
+            sim.op_enter("obs", interruptible=False)
 
     def __enter__(self):
+        if self.fail_enter:
+            self._rec("enter-raised")
+            raise ObserverStartError(self.tag)
         self._rec("enter")
 
     def __exit__(self, exc_type, exc_val, exc_tb):
